@@ -500,7 +500,9 @@ def truth(v: Any) -> Any:
     if isinstance(v, SMap):
         raise Unsupported("truthiness of a symbolic map")
     if isinstance(v, SOpaque):
-        raise Unsupported(f"truthiness of opaque value {v!r}")
+        # truthiness of an opaque value: an uninterpreted (but consistent) predicate of the value
+        f = z3.Function(f"py_truthy_{v.kind}", opaque_sort(v.kind), z3.BoolSort())
+        return SBool(f(v.t))
     if isinstance(v, SObj):
         if _CTX:
             H = _CTX[-1].handlers
@@ -791,6 +793,9 @@ class SObj:
     _ids = itertools.count()
 
     def __init__(self, cls: Any = None, kind: str | None = None, **fields: Any) -> None:
+        # closed=True (set after construction): the view lists *all* attributes, so a missing one is a
+        # Python AttributeError rather than "the contract forgot a field"
+        object.__setattr__(self, "closed", False)
         object.__setattr__(self, "cls", cls)
         object.__setattr__(self, "kind", kind or (cls.__name__ if cls is not None else "obj"))
         object.__setattr__(self, "fields", dict(fields))
